@@ -148,11 +148,11 @@ PROPS = {
         "title": "Pooled write buffers are held only while writing and never touched after release",
         "level": "exploration",
         "rule": "1-4 connections (either role, compression or not, one WriteBufferSize) share one instrumented BufferPool that attributes Get/Put to the scheduled connection, locates the pooled []byte by reflection, poisons it on Put and verifies the poison on the next Get and at the end; each connection runs a rapid-generated write program (invalid requests, writers left open, close messages, optional transport fault at operation k as in C10); the programs are interleaved API call by API call by a generated schedule. Oracle after EVERY call: buffers held by the connection == 1 iff a message writer is open and has not failed (0 between messages however the message ended); Get/Put alternate, the buffer returned is the one taken and is not already pooled; poison intact; afterwards Get==Put and each connection's wire decodes to exactly its own messages. Non-trivial = >=2 connections alternating on the pool, or a message ended by an error / implicit close / invalid request.",
-        "assumptions": TRUST + ["the pooled value's []byte is found by reflection (struct field or pointer); if it cannot be located the poison checks are skipped and the evidence says DEGRADED", "concurrent (-race) leg is part of the C11 machinery"],
+        "assumptions": TRUST + ["the pooled value's []byte is found by reflection (struct field or pointer); if it cannot be located the poison checks are skipped and the evidence says DEGRADED", "part pool-concurrent (-race binary): the same populations with every connection's program in its own goroutine; each connection gets its own view of the shared pool so Get/Put stay attributed; oracle adds: race detector report unchanged"],
         "level_text": "Bounded random exploration of programs x interleavings with a reference count of open writers.",
         "level_note": "Interleaving granularity is one public API call.",
         "technique": "property-based testing (rapid): generated multi-connection schedules, instrumented pool, invariant after every step",
-        "legs": [leg("^TestC20$", 3000, 30000, qshards=8)],
+        "legs": [leg("^TestC20$", 3000, 30000, qshards=8), raceleg("^TestC20Conc$", 200, 3000)],
     },
     "C11": {
         "title": "Documented concurrency contract: race-free, frames atomic, WriteControl bounded",
